@@ -404,7 +404,12 @@ def enum_cases(cls):
     if cls == "postgresql":
         args = {"own_field": lambda tt: tt.a, "str": lambda tt: "a", "star": lambda tt: "*", "const": lambda tt: 1, "arith_own": lambda tt: tt.a + 1,
                 "foreign_field": lambda tt: u.a, "arith_foreign": lambda tt: u.a + 1, "function": lambda tt: __import__("pypika_tortoise.functions", fromlist=["Sum"]).Sum(tt.a), "null": lambda tt: None,
-                "aliased_own": lambda tt: tt.a.as_("x"), "foreign_aliased_table": lambda tt: P.Table("t", alias="z").a}
+                "aliased_own": lambda tt: tt.a.as_("x"), "foreign_aliased_table": lambda tt: P.Table("t", alias="z").a,
+                # terms that are neither a field, a string, an arithmetic expression nor a function
+                "criterion_own": lambda tt: tt.a == 1, "criterion_foreign": lambda tt: u.a == 1, "isnull_foreign": lambda tt: u.a.isnull(),
+                "between_foreign": lambda tt: tt.a.between(u.a, 5), "in_foreign": lambda tt: u.a.isin([1, 2]), "not_foreign": lambda tt: P.Not(u.a == 1),
+                "case_own": lambda tt: P.Case().when(tt.a == 1, "one").else_("other"), "case_foreign": lambda tt: P.Case().when(u.a == 1, "one").else_("other"),
+                "neg_foreign": lambda tt: -u.a, "tuple_foreign": lambda tt: P.Tuple(tt.a, u.a), "aliased_criterion_foreign": lambda tt: (u.a == 1).as_("f")}
         for stmt in ("select", "insert", "update", "delete", "update_join", "insert_aliased_own", "update_join_using", "insert_after_star", "update_after_star"):
             for an_, mk in args.items():
                 def thunk(stmt=stmt, an_=an_, mk=mk):
@@ -430,7 +435,7 @@ def enum_cases(cls):
                         q = Q.into(tt).insert(1)
                     arg = mk(tt)
                     r = outcome(lambda: q.returning(arg))
-                    foreign = an_ in ("foreign_field", "arith_foreign", "foreign_aliased_table") and stmt not in ("update_join", "update_join_using")
+                    foreign = (an_ in ("foreign_field", "arith_foreign", "foreign_aliased_table") or an_.endswith("_foreign")) and stmt not in ("update_join", "update_join_using")
                     if an_ == "foreign_aliased_table" and stmt in ("update_join", "update_join_using"):
                         foreign = True
                     exp = None
